@@ -84,6 +84,22 @@ Section C19.
     (forall o x args, In o ops -> o <> OnContour x PlotContour args) -> run shape V result effect t ops h Figs = h Figs.
   Proof. exact (figs_untouched shape V result effect). Qed.
 
+  (* unseeded Monte-Carlo operations read AND advance numpy's global generator (it is in their read and write sets); with
+     the generator re-seeded to the same value before both occurrences (np.random.seed(s)) and nothing else they read
+     written in between, they return the same object: unseeded sampling is reproducible through np.random.seed *)
+  Theorem C19_reproducible_by_global_seed_partial : forall ops (h : heap V) i j a, same_result_if_reseeded shape ops i j = true ->
+    nth_error ops i = Some a ->
+    heap_before shape V result effect ops h j Rng = heap_before shape V result effect ops h i Rng ->
+    result a (map (heap_before shape V result effect ops h j) (rset shape a)) =
+    result a (map (heap_before shape V result effect ops h i) (rset shape a)).
+  Proof. exact (repeatable_if_reseeded shape V result effect). Qed.
+  Theorem C19_unseeded_uses_global_rng_partial : forall t k e args, may_use_rng e = true ->
+    In Rng (wset shape t (Eval k e args)) /\ In Rng (rset shape (Eval k e args)).
+  Proof.
+    intros t k e args H. split; [exact (unseeded_writes_rng shape t k e args H)|].
+    cbn [rset]. apply in_or_app. right. apply in_or_app. right. rewrite H. left. reflexivity.
+  Qed.
+
   (* everything a fit writes lies in the region of the fitted model, except the defaults it fills into the caller's
      fit_descriptions *)
   Theorem C19_fit_footprint_partial : forall k d fd t c, In c (wset shape t (Fit k d fd)) ->
@@ -137,6 +153,8 @@ Print Assumptions C19_save_overwrites_partial.
 Print Assumptions C19_module_state_untouched_partial.
 Print Assumptions C19_global_rng_partial.
 Print Assumptions C19_figures_partial.
+Print Assumptions C19_reproducible_by_global_seed_partial.
+Print Assumptions C19_unseeded_uses_global_rng_partial.
 Print Assumptions C19_fit_footprint_partial.
 Print Assumptions C19_repeatable_partial.
 Print Assumptions C19_repeatable_unless_refitted_partial.
